@@ -110,7 +110,8 @@ def check_node(n, gkids, gtexts, gbelow_count, root, depth_bound, T):
     if strip_ws(''.join(str(t) for t in txt)) != strip_ws(''.join(gtexts)):
         return ('text', strip_ws(''.join(gtexts)), strip_ws(''.join(str(t) for t in txt)))
     # 6. parent links
-    for view, seq in (('contents', got), ('children', kids)):
+    for view, seq in (('contents', got), ('children', kids), ('iteration', it),
+                      ('indexing', [n[i] for i in range(len(got))])):
         for x in seq:
             if isinstance(x, T['TexNode']) and (x.parent is None or x.parent.expr is not e):
                 return ('parent-' + view, str(n)[:40], None if x.parent is None else str(x.parent)[:40])
